@@ -92,7 +92,25 @@ func runC17(c *engine.Ctx) {
 			for _, cond := range engine.InstrConds(ci.Instr) {
 				if ex, isEx := cond.V.(*ssa.Extract); isEx && ex.Index == 1 && !cond.Pol {
 					if lkp, isL := ex.Tuple.(*ssa.Lookup); isL && isLoadOfField(lkp.X, table) {
-						absent = true
+						// the test counts only if the table lock is not given up between it and the start (a stale
+						// "no entry" lets several callers each create and start a process for the same peer)
+						stale := false
+						engine.Instrs(f, func(in ssa.Instruction) {
+							cc, ok := in.(*ssa.Call)
+							if !ok {
+								return
+							}
+							sc := cc.Call.StaticCallee()
+							if sc == nil || (sc.Name() != "Unlock" && sc.Name() != "RUnlock") || len(cc.Call.Args) == 0 || fieldReadOf2(cc.Call.Args[0]) != lk {
+								return
+							}
+							if engine.Before(lkp, cc) && engine.Before(cc, ci.Instr) {
+								stale = true
+							}
+						})
+						if !stale {
+							absent = true
+						}
 					}
 				}
 			}
@@ -236,9 +254,9 @@ func runC17(c *engine.Ctx) {
 	lcq := lc
 	// head taken: Index/IndexAddr 0 of builders in extract, under lock
 	headOK := false
-	engine.Instrs(m.extract, func(in ssa.Instruction) {
+	engine.Instrs(m.popFn, func(in ssa.Instruction) {
 		if ia, ok := in.(*ssa.IndexAddr); ok && isLoadOfField(ia.X, m.builders) {
-			if k, ok := engine.ConstInt(ia.Index); ok && k == 0 && lcq.Sets(m.extract).HeldAt(ia)[m.buildersLk] {
+			if k, ok := engine.ConstInt(ia.Index); ok && k == 0 && lcq.Sets(m.popFn).HeldAt(ia)[m.buildersLk] {
 				headOK = true
 			}
 		}
@@ -257,20 +275,63 @@ func runC17(c *engine.Ctx) {
 			if !engine.IsNamed(ci.Common.Args[0].Type(), "~/messagequeue", "Builder") {
 				continue
 			}
-			arg := engine.LocalValue(ci.Common.Args[0])
-			newest := false
-			if u, ok := arg.(*ssa.UnOp); ok && u.Op == token.MUL {
-				if ia, ok := u.X.(*ssa.IndexAddr); ok && isLoadOfField(ia.X, m.builders) {
-					if sub, ok := engine.Strip(ia.Index).(*ssa.BinOp); ok && sub.Op == token.SUB {
-						if k, ok := engine.ConstInt(sub.Y); ok && k == 1 {
-							if lc2, ok := sub.X.(*ssa.Call); ok {
-								if lb, ok := lc2.Call.Value.(*ssa.Builtin); ok && lb.Name() == "len" && isLoadOfField(lc2.Call.Args[0], m.builders) {
-									newest = true
+			// every way the builder handed to the build function comes about: builders[len(builders)-1], or the builder
+			// that this function has just appended at the tail
+			isLast := func(v ssa.Value) bool {
+				if u, ok := v.(*ssa.UnOp); ok && u.Op == token.MUL {
+					if ia, ok := u.X.(*ssa.IndexAddr); ok && isLoadOfField(ia.X, m.builders) {
+						if sub, ok := engine.Strip(ia.Index).(*ssa.BinOp); ok && sub.Op == token.SUB {
+							if k, ok := engine.ConstInt(sub.Y); ok && k == 1 {
+								if lc2, ok := engine.LocalValue(sub.X).(*ssa.Call); ok {
+									if lb, ok := lc2.Call.Value.(*ssa.Builtin); ok && lb.Name() == "len" && isLoadOfField(lc2.Call.Args[0], m.builders) {
+										return true
+									}
 								}
 							}
 						}
 					}
 				}
+				return false
+			}
+			isJustAppended := func(v ssa.Value) bool {
+				for _, st := range engine.StoresTo([]*ssa.Function{f}, m.builders) {
+					call, ok := st.Val.(*ssa.Call)
+					if !ok {
+						continue
+					}
+					if b, isB := call.Call.Value.(*ssa.Builtin); !isB || b.Name() != "append" || len(call.Call.Args) != 2 {
+						continue
+					}
+					// append(builders, v): the variadic slice holds v
+					if sliceHolds(call.Call.Args[1], v) || engine.Strip(call.Call.Args[1]) == v {
+						return true
+					}
+					if sl, ok := engine.Strip(call.Call.Args[1]).(*ssa.Slice); ok {
+						if al, ok := sl.X.(*ssa.Alloc); ok {
+							for _, r := range *al.Referrers() {
+								if ia, ok := r.(*ssa.IndexAddr); ok {
+									for _, rr := range *ia.Referrers() {
+										if s2, ok := rr.(*ssa.Store); ok && engine.Strip(s2.Val) == v {
+											return true
+										}
+									}
+								}
+							}
+						}
+					}
+				}
+				return false
+			}
+			newest := true
+			outs := engine.ValueOutcomes(engine.LocalValue(ci.Common.Args[0]), ci.Instr.Block())
+			for _, o := range outs {
+				lv := engine.LocalValue(o.V)
+				if !isLast(lv) && !isJustAppended(engine.Strip(lv)) {
+					newest = false
+				}
+			}
+			if len(outs) == 0 {
+				newest = false
 			}
 			c.Decide(r4, engine.FuncName(f)+"|build-into-newest", ci.Instr.Pos(), newest,
 				"the build function is applied to the newest builder (builders[len-1])",
@@ -483,4 +544,13 @@ func c17ShutdownCallback(c *engine.Ctx, r2 string, pmFns []*ssa.Function, table 
 		c.Violate(r2, "shutdown-callback|no-delete", cbRoots[0].Pos(), "the shutdown callback no longer removes the dead process from the table: GetProcess keeps handing out a dead queue")
 	}
 
+}
+
+// fieldReadOf2: the field whose address (or value) v is — `&pm.peerProcessesLk` as the receiver of Lock/Unlock.
+func fieldReadOf2(v ssa.Value) *types.Var {
+	v = engine.Strip(v)
+	if fa, ok := v.(*ssa.FieldAddr); ok {
+		return engine.FieldOf(fa)
+	}
+	return fieldReadOf(v)
 }
